@@ -63,35 +63,14 @@ theorem C17_tie_wait_allow :
     CM.Gen.C17.wait = ["select{", "case:recv:done", "return", "case:recv:ticket", "return", "}"] ∧
     CM.Gen.C17.allow = ["select{", "case:recv:ticket", "return", "case:default", "return", "}"] := by decide
 
-/-- `SetMaxEvents`: whole body under the mutex; invalid-configuration panic and the
-"no change" return come before anything is modified; fast-forward loop of `advance`, THEN the
-copy loop (`new[i] = ring[cursor]; advance; break when back at the start`) guarded by a
-non-empty old ring, THEN the new ring is installed with cursor 0 — the shape `resize` follows. -/
-theorem C17_tie_setMax_shape :
-    shape CM.Gen.C17.setMaxEvents =
-      ["lock", "defer:unlock", "if{", "panic", "}", "if{", "return", "}",
-       "let", "for{", "call:advance", "}",
-       "if{", "let", "for{", "write:new[i]=ring[cursor]", "call:advance", "if{", "break", "}", "}", "}",
-       "write:ring=new", "write:cursor=0"] := by decide
-
-/-- … and the content of its guards: panic iff `window != 0 && n == 0`; no-op iff `n == len`;
-fast-forward `len - n` times; copy while `i < len(new)` and until the cursor is back at the
-start. (Receiver and parameters are renamed `r`, `arg0`… by the translator; the names of the three
-locals remain: these are the tests `step`/`resize` encode.) -/
-theorem C17_tie_setMax_guards :
-    guards CM.Gen.C17.setMaxEvents =
-      ["if(r.window!=0&&arg0==0){", "if(arg0==len(r.ring)){", "let:sizeDiff=len(r.ring)-arg0",
-       "for(i<sizeDiff){", "if(len(r.ring)>0){", "let:startCursor=r.cursor", "for(i<len(newRing)){",
-       "if(r.cursor==startCursor){"] := by decide
+-- (the fact ties on the shape / guards of `SetMaxEvents` and on the shape of `advance` were retired: both methods
+-- are tied whole now — CM/Tie/FnC17.lean, advance_eq, C17_tie_fn_SetMaxEvents — and the function ties stay proved
+-- under rewrites (a local for the next position, `range` for the copy loop) that changed the extracted shapes)
 
 /-- `SetWindow`: under the mutex, panics iff `window != 0 && len(ring) == 0`, else assigns. -/
 theorem C17_tie_setWindow :
     shape CM.Gen.C17.setWindow = ["lock", "defer:unlock", "if{", "panic", "}", "write:window=arg"] ∧
     guards CM.Gen.C17.setWindow = ["if(arg0!=0&&len(r.ring)==0){"] := by decide
-
-/-- `advance`: `cursor++`, wrap to 0 when `cursor >= len(ring)` — the model's `advance`. -/
-theorem C17_tie_advance :
-    CM.Gen.C17.advance = ["write:cursor++", "if(r.cursor>=len(r.ring)){", "write:cursor=0", "}"] := by decide
 
 /-- `NewRateLimiter` refuses (panics on) negative limits and `maxEvents == 0 && window != 0`
 — the model's `Init` —, starts `loop` and waits for it; `Stop` closes the stop channel. -/
